@@ -1,17 +1,23 @@
 ------------------------------ MODULE Trace_VM ------------------------------
 (***************************************************************************)
 (* Trace validation of the real VM against VM.tla.  A record is                  *)
-(*   [id, insns |-> <<instruction records>>, trace |-> <<[pc, r |-> <<a,b,c,d>>,    *)
-(*    vs, rs, vp (depths)]>>]                                                      *)
+(*   [id, insns |-> <<instruction records>>, errsteps |-> <<steps that raised>>,     *)
+(*    trace |-> <<[pc, r |-> <<a,b,c,d>>, vs, rs, vp, cx, ret, gs, br (depths)]>>]    *)
 (* one trace entry per executed instruction (the state BEFORE it runs).            *)
 (* The specification is run in lock-step: before every instruction its pc, its      *)
-(* registers (where both sides know the value) and its stack depths must be what     *)
-(* the real machine recorded.  After an instruction outside the model the state is    *)
-(* re-synchronised from the record: registers as recorded, stacks of the recorded       *)
-(* depths filled with opaque values, every variable opaque.                           *)
-(* Verdict per record: AGREE <validated steps> <resynchronisations>, or                *)
-(* DRIFT <step> <what> - a disagreement between model and machine (reported as          *)
-(* evidence by the driver: either the model or the machine changed).                    *)
+(* registers (where both sides know the value) and the depths of its stacks must     *)
+(* be what the real machine recorded.  Where the model holds an opaque register and    *)
+(* the machine recorded a value, the recorded value is adopted (Refine).                *)
+(*  - An error the machine raised transfers control as the machine says: argument        *)
+(*    lists are dropped, an error handler gets its own context entry, the stacks are       *)
+(*    cut back to the recorded depths (ErrorTransfer).                                     *)
+(*  - After an instruction outside the model, or when the recorded shape cannot be          *)
+(*    explained, the state is re-synchronised from the record (Resync): registers as         *)
+(*    recorded, stacks of the recorded depths filled with opaque values, every block          *)
+(*    unknown.                                                                             *)
+(* Verdict per record: AGREE <id> <validated steps> <resynchronisations>, or                *)
+(* DRIFT <id> <step> <what> - a disagreement between model and machine (reported as          *)
+(* evidence by the driver: either the model or the machine changed).                         *)
 (***************************************************************************)
 EXTENDS VM, Json, IOUtils
 
@@ -26,39 +32,70 @@ Spec == Init /\ [][Next]_<<idx, done>>
 SameVal(x, y) == IsOpaque(x) \/ IsOpaque(y) \/ (x.t = y.t /\ x.v = y.v)
 SameRegs(st, e) == SameVal(st.a, e.r[1]) /\ SameVal(st.b, e.r[2]) /\ SameVal(st.c, e.r[3]) /\ SameVal(st.d, e.r[4])
 \* the machine counts the live registers as the top frame of its register stack
-SameDepths(st, e) == Len(st.vs) = e.vs /\ Len(st.rs) + 1 = e.rs /\ Len(st.vp) = e.vp
+SameDepths(st, e) == /\ Len(st.vs) = e.vs /\ Len(st.rs) + 1 = e.rs /\ Len(st.vp) = e.vp
+                     /\ Len(st.ctx) = e.cx /\ Len(st.ret) = e.ret /\ Len(st.gs) = e.gs /\ Len(st.br) = e.br
+Pick(x, y) == IF IsOpaque(x) THEN y ELSE x
+Refine(st, e) == [st EXCEPT !.a = Pick(@, e.r[1]), !.b = Pick(@, e.r[2]), !.c = Pick(@, e.r[3]), !.d = Pick(@, e.r[4])]
 
 OpaqueSeq(n) == [j \in 1..n |-> Opaque]
+\* nothing is known but the shape: the context entries all name unknown blocks of their own (no sharing is assumed,
+\* which only loses knowledge: every value read from them is opaque)
 Resync(e) == [pc |-> e.pc, a |-> e.r[1], b |-> e.r[2], c |-> e.r[3], d |-> e.r[4],
               vs |-> OpaqueSeq(e.vs), rs |-> [j \in 1..(e.rs - 1) |-> <<Opaque, Opaque, Opaque, Opaque>>],
-              vp |-> [j \in 1..e.vp |-> "?"], vars |-> [x \in {} |-> Opaque]]
+              vp |-> [j \in 1..e.vp |-> [n |-> "?", q |-> "?", sh |-> FALSE, deep |-> TRUE]],
+              ret |-> [j \in 1..e.ret |-> -1], gs |-> [j \in 1..e.gs |-> -1], br |-> OpaqueSeq(e.br), fres |-> Opaque,
+              ctx |-> [j \in 1..e.cx |-> [blk |-> j - 1, coll |-> FALSE, args |-> <<>>]],
+              blocks |-> [j \in 0..(e.cx - 1) |-> UnknownBlock], statics |-> [x \in {} |-> 0], nb |-> e.cx, lost |-> TRUE]
+
+\* a resynchronised state does not know which context entries collect arguments or which STATIC blocks exist
+Lost(st) == "lost" \in DOMAIN st
+
+RECURSIVE DropColl(_)
+DropColl(cx) == IF Len(cx) > 1 /\ Last(cx).coll THEN DropColl(Front(cx)) ELSE cx
+Prefix(s, n) == SubSeq(s, 1, n)
+\* control after an error, as far as the model can tell it: the next entry is either the handler (one more context
+\* entry, on the module's block) or the next statement (ON ERROR RESUME NEXT); the stacks are cut to the recorded depths
+ErrorTransfer(st, e) ==
+  LET cx0 == DropColl(st.ctx)
+      cx1 == IF e.cx = Len(cx0) + 1 THEN Append(cx0, [blk |-> 0, coll |-> FALSE, args |-> <<>>]) ELSE cx0
+  IN IF Lost(st) \/ Len(cx1) # e.cx \/ e.vs > Len(st.vs) \/ e.rs - 1 > Len(st.rs) \/ e.vp > Len(st.vp) \/ e.br > Len(st.br)
+        \/ e.ret # Len(st.ret) \/ e.gs # Len(st.gs)
+     THEN Resync(e)
+     ELSE [st EXCEPT !.pc = e.pc, !.ctx = cx1, !.vs = Prefix(@, e.vs), !.rs = Prefix(@, e.rs - 1), !.vp = Prefix(@, e.vp),
+                     !.br = Prefix(@, e.br), !.a = e.r[1], !.b = e.r[2], !.c = e.r[3], !.d = e.r[4]]
+
+ErrOps == Binary \cup {"Cast", "NegateA", "NotA"}
 
 RECURSIVE Check(_, _, _, _, _)
-\* k: index of the trace entry the state st must match; ok: validated steps; rs: resynchronisations
-Check(r, k, st, ok, rsn) ==
+\* k: index of the trace entry the state st must match; ok: validated steps; rsn: resynchronisations
+Check(r, k, st0, ok, rsn) ==
   IF k > Len(r.trace) THEN <<"AGREE", ok, rsn>>
   ELSE LET e == r.trace[k] IN
-    IF st.pc # e.pc THEN <<"DRIFT", k, "pc">>
-    ELSE IF ~SameRegs(st, e) THEN <<"DRIFT", k, "registers">>
-    ELSE IF ~SameDepths(st, e) THEN <<"DRIFT", k, "depths">>
+    IF st0.pc # e.pc THEN <<"DRIFT", k, "pc">>
+    ELSE IF ~SameRegs(st0, e) THEN <<"DRIFT", k, "registers model=" \o ToString(<<st0.a, st0.b, st0.c, st0.d>>)>>
+    ELSE IF ~SameDepths(st0, e) THEN <<"DRIFT", k, "depths model=" \o ToString(<<Len(st0.vs), Len(st0.rs) + 1, Len(st0.vp), Len(st0.ctx), Len(st0.ret), Len(st0.gs), Len(st0.br)>>)>>
     ELSE IF e.pc + 1 > Len(r.insns) THEN <<"DRIFT", k, "pc-out-of-range">>
-    ELSE LET x == Exec(r.insns[e.pc + 1], st)
-             errHere == e.pc \in {r.errors[j] : j \in 1..Len(r.errors)}
+    ELSE LET st == Refine(st0, e)
+             ins == r.insns[e.pc + 1]
+             x == Exec(ins, st)
+             errHere == k \in {r.errsteps[j] : j \in 1..Len(r.errsteps)}
+             last == k = Len(r.trace)
          IN
-      IF errHere /\ IsState(x) THEN
+      IF errHere /\ (IsState(x) \/ "trust" \in DOMAIN x) THEN
            \* the machine raised an error the model did not predict: a disagreement when the operands were known
            \* (a result the model leaves open - outside the exact domain - is opaque, and then nothing is claimed)
-           (IF Known2(st.a, st.b) /\ ~IsOpaque(x.a) /\ r.insns[e.pc + 1].op \in Binary \cup {"Cast", "NegateA", "NotA"} THEN <<"DRIFT", k, "unexpected-error">>
-            ELSE IF k = Len(r.trace) THEN <<"AGREE", ok, rsn>> ELSE Check(r, k + 1, Resync(r.trace[k + 1]), ok, rsn + 1))
-      ELSE IF IsState(x) THEN Check(r, k + 1, x, ok + 1, rsn)
-      ELSE IF "halt" \in DOMAIN x THEN (IF k = Len(r.trace) THEN <<"AGREE", ok + 1, rsn>> ELSE <<"DRIFT", k, "halt">>)
+           (IF IsState(x) /\ Known2(st.a, st.b) /\ ~IsOpaque(x.a) /\ ins.op \in ErrOps THEN <<"DRIFT", k, "unexpected-error">>
+            ELSE IF last THEN <<"AGREE", ok, rsn>> ELSE Check(r, k + 1, ErrorTransfer(st, r.trace[k + 1]), ok, rsn))
+      ELSE IF IsState(x) THEN Check(r, k + 1, IF Lost(st) THEN x @@ [lost |-> TRUE] ELSE x, ok + 1, rsn)
+      ELSE IF "trust" \in DOMAIN x THEN
+           (IF last THEN <<"AGREE", ok + 1, rsn>> ELSE Check(r, k + 1, [x.trust EXCEPT !.pc = r.trace[k + 1].pc], ok + 1, rsn))
+      ELSE IF "halt" \in DOMAIN x THEN (IF last THEN <<"AGREE", ok + 1, rsn>> ELSE <<"DRIFT", k, "halt">>)
       ELSE IF "err" \in DOMAIN x THEN
-           \* the machine must have raised an error here too (the driver checks the list of failing addresses)
-           (IF errHere THEN
-              (IF k = Len(r.trace) THEN <<"AGREE", ok + 1, rsn>> ELSE Check(r, k + 1, Resync(r.trace[k + 1]), ok + 1, rsn + 1))
+           \* the machine must have raised an error here too (the driver lists the failing addresses)
+           (IF errHere THEN (IF last THEN <<"AGREE", ok + 1, rsn>> ELSE Check(r, k + 1, ErrorTransfer(st, r.trace[k + 1]), ok + 1, rsn))
             ELSE <<"DRIFT", k, "error-not-raised">>)
-      ELSE \* unmodelled instruction or a jump on an opaque value: take the machine's word and go on
-           (IF k = Len(r.trace) THEN <<"AGREE", ok, rsn>> ELSE Check(r, k + 1, Resync(r.trace[k + 1]), ok, rsn + 1))
+      ELSE \* an instruction outside the model: take the machine's word and go on
+           (IF last THEN <<"AGREE", ok, rsn>> ELSE Check(r, k + 1, Resync(r.trace[k + 1]), ok, rsn + 1))
 
 Verdict ==
   done =>
